@@ -1,0 +1,15 @@
+//go:build !verif
+
+package network
+
+import (
+	"context"
+
+	"github.com/bronlabs/bron-crypto/pkg/mpc/sharing"
+)
+
+// Without the verif build tag the verification hooks are empty and inlined away.
+
+func (*routerCore) verifTrace(context.Context, string, string, sharing.ID, []byte) {}
+
+func (*routerCore) verifGate(context.Context, string) {}
